@@ -804,7 +804,13 @@ func (x *Exec) binop(st *State, i *ssa.BinOp) Value {
 	if _, ok := a.(VSlice); ok {
 		return x.stringBinop(st, i, asSlice(a), asSlice(b))
 	}
-	if _, ok := a.(VOpaque); ok {
+	_, aop := a.(VOpaque)
+	_, bop := b.(VOpaque)
+	if aop || bop {
+		if rty.K == TBool {
+			// comparison of unmodelled (floating point) values: either outcome
+			return VScalar{FreshVar("opaquecmp", BoolSort), rty}
+		}
 		return VOpaque{rty, "binop on opaque"}
 	}
 	sa, sb := asScalar(a), asScalar(b)
@@ -1150,6 +1156,29 @@ type VIfaceObj struct {
 func (x *Exec) typeAssert(st *State, i *ssa.TypeAssert) Value {
 	v := x.val(st, i.X)
 	named, _ := i.AssertedType.(*types.Named)
+	if named != nil && !types.IsInterface(i.AssertedType) {
+		// assertion to a named concrete type T: succeeds iff the uninterpreted predicate isT(m) holds
+		// (declared in the spec library); the extracted value is unconstrained
+		if s, isSc := v.(VScalar); isSc && s.Ty.K == TIface {
+			name := "is" + named.Obj().Name()
+			fn := x.W.SpecFns[name]
+			if fn == nil || fn.Body != nil || len(fn.Params) != 1 {
+				vfail("type assertion to %s: declare the uninterpreted predicate 'spec func %s(m iface) bool'", named.Obj().Name(), name)
+			}
+			ok := App(specFnSym(name), BoolSort, s.T)
+			st.assume(Implies(Eq(s.T, BVInt(0, 32)), Not(ok)))
+			res, facts := x.freshValue(tyFromGo(i.AssertedType), "asserted."+named.Obj().Name(), st)
+			for _, f := range facts {
+				st.assume(f)
+			}
+			if !i.CommaOk {
+				x.oblige(st, "typeassert", instrOrd(i), "type assertion to "+named.Obj().Name()+" succeeds (no panic)", i.Pos(), ok)
+				st.assume(ok)
+				return res
+			}
+			return VTuple{[]Value{res, VScalar{ok, tyBool}}}
+		}
+	}
 	if named == nil || !types.IsInterface(i.AssertedType) {
 		vfail("type assertion to %s is outside the subset (only named interface types)", i.AssertedType)
 	}
